@@ -4,5 +4,7 @@ CONSTANTS
   CounterIsStatic = FALSE
   TypeIdByFirstUse = FALSE
   AddressInOutput = FALSE
+  ObjectHashIsAddress = FALSE
+  ExtBufferIsStatic = FALSE
   DefinesPersist = FALSE
 CHECK_DEADLOCK FALSE
